@@ -69,6 +69,12 @@ def survives(words, text):
     return text.lower() in words
 
 
+# The Turkish upper-case forms that fail on the unchanged tree (known finding C19-K2), PINNED here rather than
+# recomputed from config.json: an edited word table must not move another form into the known class.
+K2_PINNED = {"ARALİK", "CARPİ", "CİKAR", "CİKART", "EKSİ", "EKİ", "EKİM", "HAZİRAN", "KASİM", "MAYİS", "NİS", "NİSAN",
+             "ÇARPI", "ÇIKAR", "ÇIKART"}
+
+
 def tr_upper(w):
     """upper case as Turkish writes it"""
     return "".join({"i": "İ", "ı": "I"}.get(ch, ch.upper()) for ch in w)
@@ -331,7 +337,7 @@ def generate(rng, tier):
                             continue
                         t = cased("tr", w, casing)
                         els = [lit(d), ("monw", m, form, casing, w), lit(2020)]
-                        if survives(spellings("tr", m), t):
+                        if t not in K2_PINNED:
                             cases.append(pair_case(rng, els, "table-month", words=True))
                         else:
                             cases.append(pair_case(rng, els, "month-turkish-upper", words=True, cls=CLASS_K2))
@@ -342,7 +348,7 @@ def generate(rng, tier):
         for w in OPW["tr"][op]:
             texts = {"en": "12 %s 4" % rng.choice(OPW["en"][op]).upper(), "tr": "12 %s 4" % tr_upper(w)}
             meta = {"kind": "operator-word-upper", "words": True}
-            if not survives(set(OPW["tr"][op]), tr_upper(w)):
+            if tr_upper(w) in K2_PINNED:
                 meta = {"kind": "operator-turkish-upper", "words": True, "cls": CLASS_K2}
             cases.append({"ops": [{"op": "exec", "lang": l, "text": texts[l]} for l in LANGS], "meta": meta})
 
